@@ -73,6 +73,7 @@ class AliasRule(sym.Rule):
               'MOT': '%"struct.svp::MOT"*', 'CO': '%"struct.svp::CO"*', 'TR': '%"struct.svp::TR"*',
               'int': 'i32*', 'intp': 'i32**'}[cfg.elem]
         self.elem_ptr_types = {et}
+        self.esize = {'NM': 4, 'TM': 4, 'MO': 4, 'MOT': 4, 'CO': 4, 'TR': 8, 'int': 4, 'intp': 8}[cfg.elem]
 
     def init(self, f, eng):
         return None      # None = pristine; otherwise description of the clobbering event
@@ -117,6 +118,18 @@ class AliasRule(sym.Rule):
                         del rest[hi]
                 if t[1] >= 0 and all(c >= 0 for c in rest.values()):
                     return False
+            # t - END0 is a positive multiple of (y - x) for a path condition x < y (or x <= y):
+            # e.g. pos + sizeof * count with (end - pos) / sizeof < count
+            end0 = sym.lin_add(sym.atom(data0), sym.lin_scale(sym.atom(size0), self.esize))
+            diff = sym.lin_sub(t, end0)
+            for (cnd, v) in self.cur_conds:
+                ca = cmp_atom(cnd)
+                if ca is None or ca[1] not in ('ult', 'ule'):
+                    continue
+                x, y = (ca[2], ca[3]) if v is True else (ca[3], ca[2])
+                for m in (self.esize, 1):
+                    if sym.lin_scale(sym.lin_sub(y, x), m) == diff:
+                        return False
         return True
 
     def on_event(self, rs, ev, st, f, eng):
